@@ -101,6 +101,7 @@ let print_fev = function
   | ERecords (r, n) -> Printf.printf "records %d %d\n" (int_of_nat r) (int_of_nat n)
   | ELive (c, p) -> Printf.printf "live %d %d\n" (int_of_nat c) (int_of_nat p)
   | ELiveUnspecified -> print_string "live unspecified\n"
+  | EMustPropagate -> print_string "exception-must-reach-the-caller\n"
 
 (* ---------------- throwing listeners ---------------- *)
 
